@@ -77,8 +77,9 @@ impl Gen7 {
             ('i' | 'r', 0..=3) => { let o = *self.rng.pick(&[16u32, 17, 18, 16, 17, 20, 19]); let (l, r) = (self.scalar(rels, ty, d, agg), self.scalar(rels, 'i', d, agg)); bin(l, o, r) }
             ('i', 4) => { let o = *self.rng.pick(&[21u32, 22, 23, 24]); let (l, r) = (self.scalar(rels, 'i', d, agg), self.scalar(rels, 'i', d, false)); bin(l, o, r) }
             // bit test `flags & (1 << n)` and friends: a shift or bit operator nested in another
-            ('i', 5) if self.rng.chance(1, 2) => { let (a, b, c) = (self.scalar(rels, 'i', 0, false), ival(1 + self.rng.below(3) as i64), ival(self.rng.below(4) as i64));
-                let (o1, o2) = (*self.rng.pick(&[21u32, 22, 23, 24]), *self.rng.pick(&[21u32, 22, 23, 24, 16, 18]));
+            ('i', 5) if self.rng.chance(1, 2) => { let (a, b, c) = (self.scalar(rels, 'i', 0, false), ival(1 + self.rng.below(3) as i64), ival(1 + self.rng.below(3) as i64));
+                // (shift counts and masks are never 0: a degenerate operand would hide which way the engine groups the two operators)
+                let (o1, o2) = (*self.rng.pick(&[21u32, 22, 23, 24]), *self.rng.pick(&[21u32, 22, 23, 24, 23, 24, 16, 18]));
                 if self.rng.chance(1, 2) { bin(a, o1, bin(b, o2, c)) } else { bin(bin(a, o2, b), o1, c) } }
             ('i', 5) => Ex::Func(Fun::Std(10), false, vec![self.scalar(rels, 't', d, agg)]),
             ('i' | 'r', 6) => Ex::Func(Fun::Std(4), false, vec![self.scalar(rels, ty, d, agg)]),
